@@ -328,7 +328,9 @@ def defaultExprPool : List (Toks × ExprClass) :=
    (["<", "u8", "as", "Tr", ">", "::", "K"], .path), (["::", "a", "::", "K"], .path),
    (["f", "(", ")"], .other), (["{", "1", "}"], .other), (["_"], .underscore), (["(", "K", ")"], .other),
    (["K", "as", "u8"], .other), (["&", "K"], .other), (["mac", "!", "(", ")"], .other), (["X", "::", "new", "(", ")"], .other),
-   (["[", "1", ",", "2", "]"], .other), (["1", "+", "2"], .other), (["E", "::", "A"], .path), (["T", "::", "default", "(", ")"], .other)]
+   (["[", "1", ",", "2", "]"], .other), (["{", "1", "}", "+", "1"], .blockLead), (["{", "K", "}", "as", "u8"], .blockLead),
+   (["if", "true", "{", "K", "}", "else", "{", "K", "}", ".", "f", "(", ")"], .blockLead), (["match", "K", "{", "_", "=>", "K", "}", "?"], .blockLead),
+   (["unsafe", "{", "K", "}", "[", "0", "]"], .blockLead), (["{", "K", "}", "(", ")"], .blockLead), (["{", "1", "}", "..", "2"], .blockLead), (["1", "+", "2"], .other), (["E", "::", "A"], .path), (["T", "::", "default", "(", ")"], .other)]
 
 def genDefaultAttrs (cfg : GCfg) (marker : Nat) (withValue : Bool) : Gen (List Attr) := do
   if !(← chance cfg.defaultAttrPct 100) then pure [] else
